@@ -19,6 +19,17 @@ type outcome struct {
 	ns    int64
 }
 
+// padcap copies b into a slice with spare capacity filled with a sentinel, so that a decoder that
+// re-slices past len (into cap) reads 0xA5 octets instead of silently seeing zeros or neighbours.
+func padcap(b []byte) []byte {
+	buf := make([]byte, len(b)+32)
+	for i := range buf {
+		buf[i] = 0xA5
+	}
+	copy(buf, b)
+	return buf[:len(b)]
+}
+
 func resOk(v *Sx) *Sx { return sl(sy("ok"), v) }
 func resErr() *Sx     { return sl(sy("err")) }
 func resPanic() *Sx   { return sl(sy("panic")) }
@@ -223,7 +234,7 @@ func redecObs(b []byte) *Sx {
 	var ps []rtcp.Packet
 	d1 := guard(func() *Sx {
 		var err error
-		ps, err = rtcp.Unmarshal(append([]byte(nil), b...))
+		ps, err = rtcp.Unmarshal(padcap(b))
 		return packetsRes(ps, err)
 	})
 	if !isOk(d1) {
@@ -268,11 +279,12 @@ func splitObs(frames [][]byte) *Sx {
 	for _, f := range frames {
 		whole = append(whole, f...)
 	}
+	whole = padcap(whole)
 	w := guard(func() *Sx { return packetsRes(rtcp.Unmarshal(whole)) })
 	parts := make([]*Sx, len(frames))
 	for i, f := range frames {
 		f := f
-		parts[i] = guard(func() *Sx { return packetsRes(rtcp.Unmarshal(append([]byte(nil), f...))) })
+		parts[i] = guard(func() *Sx { return packetsRes(rtcp.Unmarshal(padcap(f))) })
 	}
 	return sl(sl(sy("whole"), w), sl(sy("parts"), sl(parts...)))
 }
@@ -330,11 +342,11 @@ func runOp(op *Sx) *Sx {
 	switch op.L[0].Y {
 	case "dec", "inflated":
 		if len(a) == 2 && a[0].K == 'y' && a[1].K == 'b' {
-			return decByName(a[0].Y, append([]byte(nil), a[1].B...))
+			return decByName(a[0].Y, padcap(a[1].B))
 		}
 	case "dgram":
 		if len(a) == 1 && a[0].K == 'b' {
-			b := append([]byte(nil), a[0].B...)
+			b := padcap(a[0].B)
 			return guard(func() *Sx { return packetsRes(rtcp.Unmarshal(b)) })
 		}
 	case "enc":
@@ -441,6 +453,7 @@ func heapAllocs() uint64 {
 }
 
 func measure(op *Sx) outcome {
+	spareTracked = spareTracked[:0]
 	a0 := heapAllocs()
 	t0 := time.Now()
 	obs := runOp(op)
